@@ -26,12 +26,14 @@ INDEX_PATTERNS = {
     "mixed": [-1, 5, 5, 6],
     "zero-based": [0, 1, 2, 3],
 }
-VALUES = ["0.0", "1.0e-10*Tgas", "Tgas>10.0 ? 1.0 : 2.0", "2.5e-9 * sqrt(Tgas/300.0)", 0.0]  # the last one a number, not text (the bundled ism example switches a reaction off this way)
+LONG = "1.0e-10*(1.0+2.5e-3*Tgas+8.0e-6*Tgas*Tgas+3.1e-9*Tgas*Tgas*Tgas+4.4e-12*Tgas*Tgas*Tgas*Tgas)"  # > 72 characters without a blank
+VALUES = ["0.0", "1.0e-10*Tgas", "Tgas>10.0 ? 1.0 : 2.0", "2.5e-9 * sqrt(Tgas/300.0)", LONG, 0.0]  # the last one a number, not text (the bundled ism example switches a reaction off this way)
 ODE_MODS = [
     {},
     {"H2": {"factors": ["f"], "reactants": [["H", "H"]]}},
     {"H": {"factors": ["-2.0 * f"], "reactants": [["H2"]]}},
     {"H2": {"factors": ["a+b", "-g"], "reactants": [["H", "H", "e-"], ["H2"]]}, "H+": {"factors": ["h"], "reactants": [["H", "e-"]]}},
+    {"H2": {"factors": ["0.5*f*(1.0+2.5e-3*g+8.0e-6*g*g+3.1e-9*g*g*g+4.4e-12*g*g*g*g+5.5e-15*g*g*g*g*g)"], "reactants": [["H", "H"]]}},
 ]
 
 
@@ -245,7 +247,10 @@ def run_paths(case):
     try:
         with quiet():
             api_files = render(build(case, True), "dense", TEMPL)
-        api = observe(api_files)
+        try:
+            api = observe(api_files)
+        except NotC as e:
+            return 1, [(f"C13:not-c", f"{label}: {e.stmt[:160]} ({e.why})", case)]
 
         def load(d):
             fs = {}
@@ -267,8 +272,12 @@ def run_paths(case):
             if exc is not None:
                 viols.append((f"C13:export-rerender-error:{type(exc).__name__}", f"{label}: render of the exported project raised {exc!r}", dict(case, path="export")))
             else:
-                got = observe(load(out / "proj"))
-                if not same_obs(api, got):
+                try:
+                    got = observe(load(out / "proj"))
+                except NotC as e:
+                    got = None
+                    viols.append((f"C13:not-c", f"{label}: sources rendered from the exported configuration: {e.stmt[:160]} ({e.why})", dict(case, path="export")))
+                if got is not None and not same_obs(api, got):
                     viols.append((f"C13:export-path-differs", f"{label}: sources rendered from the exported configuration differ from the API rendering: rates {got[0]} vs {api[0]}", dict(case, path="export")))
         # ---- init path
         n += 1
@@ -295,9 +304,13 @@ def run_paths(case):
         elif not (proj / "src" / "naunet_rates.cpp").exists():
             viols.append((f"C13:init-no-sources:{vclass}", f"{label}: init --render produced no sources (status {st}) {err[:200]}", dict(case, path="init")))
         else:
-            got = observe(load(proj))
+            try:
+                got = observe(load(proj))
+            except NotC as e:
+                got = None
+                viols.append((f"C13:not-c", f"{label}: sources rendered through init: {e.stmt[:160]} ({e.why})", dict(case, path="init")))
             # the elements given to init differ from the API defaults only in species that do not occur
-            if not same_obs(api, got):
+            if got is not None and not same_obs(api, got):
                 diffs = [(a, b) for a, b in zip(api[0], got[0]) if a != b]
                 viols.append((f"C13:init-path-differs:{vclass}", f"{label}: sources rendered through init differ from the API rendering: {diffs[:2]}", dict(case, path="init")))
         return n, viols
